@@ -24,6 +24,9 @@ struct zstd_verif_ghost_s {
     unsigned long long frames_bytes;      /* input bytes consumed by frames the frame decoder accepted (its contract's ghost effect) */
     unsigned long long frames_out;        /* output bytes those frames regenerated */
     unsigned long long skipped_bytes;     /* input bytes skipped as skippable frames by ZSTD_decompressMultiFrame */
+    unsigned long long chunk_src_bytes;   /* ZSTD_compress_frameChunk: input bytes put into blocks so far */
+    unsigned long long chunk_blocks;      /* blocks emitted: 0, 1, 2 = several (saturating) */
+    unsigned chunk_last_seen;             /* a block carrying the last-block flag has been emitted */
     size_t   cell_idx;                    /* ghost cell of a table-transforming loop: index chosen by the harness, */
     unsigned cell_old, cell_new;          /* its value before the loop and the value the specification gives it   */
 };
@@ -34,6 +37,8 @@ extern struct zstd_verif_ghost_s zstd_verif_ghost;
  * all objects. Re-deriving it from its base is the identity when the invariant holds (the subtraction is checked) and
  * narrows the points-to set to the base's object. Expands to nothing in a normal build. */
 #define ZSTD_VERIF_REBASE(p, base) (p) = (base) + ((p) - (base))
+/* same for void pointers (CONSTQ is `const` or empty) */
+#define ZSTD_VERIF_REBASE_BYTES(CONSTQ, p, base) (p) = (CONSTQ char*)(base) + ((CONSTQ char*)(p) - (CONSTQ char*)(base))
 /* "the ghost cell already has its new value iff the loop has passed it" — lets a loop contract carry a
  * per-element postcondition without quantifiers (the harness quantifies by choosing cell_idx freely) */
 #define ZSTD_VERIF_GHOST_CELL_INV(table, size, done) \
@@ -143,5 +148,44 @@ void zstd_verif_pool_dequeued(void* ctx, void* opaque);
         && zstd_verif_ghost.frames_out == (cap0) - (cap) \
         && ((more) == 0 || (more) == 1)) \
     __CPROVER_decreases(srcSize)
+
+/* ---- frame chunk compressor (lib/compress/zstd_compress.c, ZSTD_compress_frameChunk) ----
+ * context fields the block loop (or the window maintenance it calls) may change */
+#define ZSTD_VERIF_CCTX_CHUNK_FRAME(c) \
+    (c)->isFirstBlock, (c)->blockState.matchState.nextToUpdate, (c)->blockState.matchState.window, \
+    (c)->blockState.matchState.loadedDictEnd, (c)->blockState.matchState.dictMatchState
+/* block loop: every input byte consumed so far went into exactly one block, the output cursor and the remaining
+ * capacity account for exactly the bytes produced, and no block has carried the last-block flag yet */
+#define ZSTD_VERIF_CHUNK_LOOP(c, ip, src, remaining, srcSize, op, ostart, cap, cap0, savings, lastChunk) \
+    __CPROVER_assigns(ip, remaining, op, cap, savings, ZSTD_VERIF_CCTX_CHUNK_FRAME(c), ZSTD_VERIF_GHOST_FRAME, __CPROVER_object_whole(ostart)) \
+    __CPROVER_loop_invariant((remaining) <= (srcSize) && __CPROVER_same_object(ip, src) \
+        && (size_t)(__CPROVER_POINTER_OFFSET(ip) - __CPROVER_POINTER_OFFSET(src)) == (srcSize) - (remaining) \
+        && (cap) <= (cap0) && __CPROVER_same_object(op, ostart) \
+        && (size_t)(__CPROVER_POINTER_OFFSET(op) - __CPROVER_POINTER_OFFSET(ostart)) == (cap0) - (cap) \
+        && zstd_verif_ghost.chunk_src_bytes == (srcSize) - (remaining) \
+        && ((remaining) == 0 || zstd_verif_ghost.chunk_last_seen == 0) \
+        && ((remaining) != 0 || (srcSize) == 0 || zstd_verif_ghost.chunk_last_seen == ((lastChunk) & 1u)) \
+        && (zstd_verif_ghost.chunk_src_bytes == 0 ? zstd_verif_ghost.chunk_blocks == 0 : (zstd_verif_ghost.chunk_blocks >= 1 && zstd_verif_ghost.chunk_blocks <= 2)) \
+        && zstd_verif_ghost.xxh_bytes == __CPROVER_loop_entry(zstd_verif_ghost.xxh_bytes) \
+        && (savings) >= __CPROVER_loop_entry(savings) - (long long)((cap0) - (cap)) \
+        && (savings) <= __CPROVER_loop_entry(savings) + (long long)((srcSize) - (remaining))) \
+    __CPROVER_decreases(remaining)
+/* the 3-byte header just written at op describes the block that follows it */
+#define ZSTD_VERIF_CHUNK_HEADER(op, cSizeWithHeader, blockSize, lastBlock) \
+    __CPROVER_assert(((op)[0] & 1u) == (lastBlock) \
+        && ((((op)[0] >> 1) & 3u) == 1u /* bt_rle */ \
+            ? ((cSizeWithHeader) == 4 && ((((unsigned)(op)[0]) | ((unsigned)(op)[1] << 8) | ((unsigned)(op)[2] << 16)) >> 3) == (blockSize)) \
+            : ((((op)[0] >> 1) & 3u) == 2u /* bt_compressed */ \
+               && ((((unsigned)(op)[0]) | ((unsigned)(op)[1] << 8) | ((unsigned)(op)[2] << 16)) >> 3) + 3 == (cSizeWithHeader))), \
+        "C06 chunk: the block header written by the chunk compressor states the last-block flag, the block type and the size of the block that follows")
+#define ZSTD_VERIF_CHUNK_RAWHEADER(op, cSizeWithHeader, blockSize, lastBlock) \
+    __CPROVER_assert(((op)[0] & 1u) == (lastBlock) && (((op)[0] >> 1) & 3u) == 0u /* bt_raw */ \
+        && ((((unsigned)(op)[0]) | ((unsigned)(op)[1] << 8) | ((unsigned)(op)[2] << 16)) >> 3) == (blockSize) && (cSizeWithHeader) == (blockSize) + 3, \
+        "C06 chunk: the header of a stored (raw) block states the last-block flag and the exact size of the block")
+/* per-block accounting */
+#define ZSTD_VERIF_CHUNK_BLOCK_DONE(blockSize, lastBlock) \
+    __CPROVER_assert(zstd_verif_ghost.chunk_last_seen == 0, "C06 chunk: no block follows a block flagged last"); \
+    __CPROVER_assert((blockSize) >= 1 && (blockSize) <= (128u << 10), "C06 chunk: every block holds between 1 and 128 KB of input"); \
+    zstd_verif_ghost.chunk_src_bytes += (blockSize); if (zstd_verif_ghost.chunk_blocks < 2) zstd_verif_ghost.chunk_blocks++; zstd_verif_ghost.chunk_last_seen |= (lastBlock)
 
 #endif
